@@ -3,6 +3,7 @@ package main
 import (
 	"fmt"
 	"go/token"
+	"go/types"
 	"sort"
 	"strings"
 
@@ -189,6 +190,33 @@ func (b *Bounds) bound(v ssa.Value, upper bool) (Aff, bool) {
 		return affSym(v), true
 	case *ssa.Call:
 		n := strings.ReplaceAll(calleeName(&x.Call), modPath+"/", "")
+		if n == "builtin.len" && len(x.Call.Args) == 1 {
+			// len(X[a:b]) = b − a ; len(X[a:]) = len(X) − a   (the slice expression itself succeeded)
+			if sl, ok := x.Call.Args[0].(*ssa.Slice); ok {
+				if _, isArr := sl.X.Type().Underlying().(*types.Pointer); !isArr {
+					lo := affConst(0)
+					okLo := true
+					if sl.Low != nil {
+						lo, okLo = b.bound(sl.Low, !upper)
+					}
+					if okLo {
+						if sl.High != nil {
+							if hi, okHi := b.bound(sl.High, upper); okHi {
+								return hi.add(lo, -1), true
+							}
+						} else if sl.Low != nil {
+							// len(X) − a with len(X) as the symbol of an equivalent len call: reuse this call on X if present
+							for _, r := range *sl.X.Referrers() {
+								if lc, isC := r.(*ssa.Call); isC && lc != x && calleeName(&lc.Call) == "builtin.len" && lc.Call.Args[0] == sl.X {
+									return affSym(lc).add(lo, -1), true
+								}
+							}
+						}
+					}
+				}
+			}
+			return affSym(v), true
+		}
 		if n == "internal/common.RandInt" {
 			// RandInt(n) ∈ [0, n-1]
 			if !upper {
